@@ -20,7 +20,6 @@ import (
 
 	"github.com/honeytrap/honeytrap/director"
 	"github.com/honeytrap/honeytrap/event"
-	"github.com/honeytrap/honeytrap/listener"
 	"github.com/honeytrap/honeytrap/pushers"
 	"github.com/miekg/dns"
 )
@@ -57,7 +56,9 @@ func (s *dnsProxy) Handle(ctx context.Context, conn net.Conn) error {
 
 	buff := [65535]byte{}
 
-	if _, ok := conn.(*listener.DummyUDPConn); ok {
+	// the server hands over its timeout wrapper, never the accepted connection itself:
+	// tell datagram from stream by the address, not by the concrete connection type
+	if _, ok := conn.LocalAddr().(*net.UDPAddr); ok {
 		n, err := conn.Read(buff[:])
 		if err != nil {
 			return err
@@ -101,7 +102,7 @@ func (s *dnsProxy) Handle(ctx context.Context, conn net.Conn) error {
 		}
 
 		return err
-	} else if _, ok := conn.(*net.TCPConn); ok {
+	} else if _, ok := conn.LocalAddr().(*net.TCPAddr); ok {
 		n, err := conn.Read(buff[:])
 		if err != nil {
 			return err
